@@ -275,7 +275,13 @@ def apply(doc, case_seed, i, gen, kinds=None):
             if not c:
                 return None
             s = r.choice(c)
-            s.data[r.randrange(len(s.data))][0] = numpy.float32(gen.f32())
+            if r.random() < 0.5:
+                s.data[r.randrange(len(s.data))][0] = numpy.float32(gen.f32())
+            else:
+                # a whole new array, in the unshaped form the constructor takes; rows are only added, so every index stays valid
+                flat = numpy.array(s.data, dtype=numpy.float32).reshape(-1)
+                extra = numpy.array([gen.f32() for _ in range(len(s.components) * r.randint(0, 2))], dtype=numpy.float32)
+                s.data = numpy.concatenate([flat, extra])
         return 'sources:' + k
     if kind == 'params':
         if not doc.effects:
